@@ -84,6 +84,7 @@ func runC01(c *Ctx) {
 	c.rule("R12", "the instant written at a beat is read from the clock at that beat (time.Now() evaluated in the loop), not carried over or computed from the previous beat", 1)
 	c.rule("R14", "the instant given to the heartbeat file is read after the write of that beat: a slow write does not back-date the heartbeat it has just made", 1)
 	c.heartBeatEveryBeat("R11", "R12", "R14")
+	c.lockDirectoryStampedOnceItExists("R15")
 	c.rule("R13", "the heartbeat goroutine returns only where its context gate answered an error: a failed write does not end the heartbeat of a holder that is alive (the exit obligation of C17/S1)", 1)
 	c.heartBeatStopsOnlyWithItsContext("R13")
 
@@ -680,4 +681,68 @@ func (c *Ctx) heartBeatStopsOnlyWithItsContext(rule string) {
 	})
 	c.check(bad == "", rule, fname(hb)+"/stops-only-with-its-context", c.pos(hb.Pos()), "every return of the heartbeat goroutine follows a context gate that answered an error",
 		"the heartbeat goroutine can return at "+bad+" although its context is still alive — after one failed write, say: the holder goes on believing it holds the lock, nothing refreshes the heartbeat any more, the lock goes stale after two periods and an override contender takes it over while the holder still holds")
+}
+
+// lockDirectoryStampedOnceItExists (R15, evaluated as S14 for C17): an empty lock directory is judged by its own modification
+// time (the holder may have died between creating it and writing the first heartbeat), and TryLock sets that time itself
+// for the backends that do not. The instant it sets is read from the clock once the exclusive Mkdir has answered: read
+// before it, a Mkdir that took a while (a remote filesystem, a descheduled goroutine) back-dates the directory it has just
+// made — the lock of a holder that has only just acquired is older than two periods at birth, reported stale and taken over.
+func (c *Ctx) lockDirectoryStampedOnceItExists(rule string) {
+	c.rule(rule, "the instant TryLock gives to the lock directory it has just created is read from the clock after the exclusive Mkdir answered (a slow Mkdir does not back-date the lock)", 1)
+	try := c.fn(fsPkgRel, "(*RemoteLockFile).TryLock")
+	if try == nil {
+		return
+	}
+	c.FuncsSeen[fname(try)] = true
+	var mkdirs, stamps []*ssa.Call
+	allInstrs(try, func(in ssa.Instruction) {
+		cl, ok := in.(*ssa.Call)
+		if !ok {
+			return
+		}
+		name := ""
+		if cl.Call.IsInvoke() {
+			name = cl.Call.Method.Name()
+		} else if g := staticCallee(&cl.Call); g != nil {
+			name = g.Name()
+		}
+		switch name {
+		case "Mkdir":
+			mkdirs = append(mkdirs, cl)
+		case "Chtimes":
+			stamps = append(stamps, cl)
+		}
+	})
+	key := fname(try) + "/directory-stamped-once-it-exists"
+	if len(stamps) == 0 {
+		c.ok(rule, key, c.pos(try.Pos()), "TryLock does not set the times of the lock directory: the backend's own stamp stands")
+		return
+	}
+	bad := ""
+	for _, st := range stamps {
+		for _, a := range st.Call.Args {
+			if !strings.HasSuffix(a.Type().String(), "time.Time") {
+				continue
+			}
+			fromClock := false
+			for _, l := range sources(a, deriveOpts{}) {
+				clock, ok := l.(*ssa.Call)
+				if !ok || calleeFull(&clock.Call) != "time.Now" {
+					continue
+				}
+				fromClock = true
+				for _, mk := range mkdirs {
+					if !dominates(mk, clock) {
+						bad = "the clock is read at " + c.ipos(clock) + ", before the Mkdir at " + c.ipos(mk)
+					}
+				}
+			}
+			if !fromClock {
+				bad = "the instant handed to Chtimes at " + c.ipos(st) + " is not read from the clock"
+			}
+		}
+	}
+	c.check(bad == "", rule, key, c.ipos(stamps[0]), "the instant given to the lock directory is read after the exclusive Mkdir",
+		bad+": a Mkdir that takes more than two heartbeat periods (a remote filesystem, a descheduled goroutine) back-dates the directory it has just created — until the first heartbeat file is there the lock is judged by that age, so the lock of a holder that has just acquired is reported stale, released by ReleaseIfStale and taken over")
 }
